@@ -53,14 +53,11 @@ def r2_create_builtins(ctx):
         short = k.replace("PoolKey::new(Denom::", "").replace("{}, Denom::", "/").replace("{})", "")
         r.check(sig(q.novers(e[2][0])) == "state.pools", "insert/%s/map" % short, "into state.pools", "into %s" % sig(e[2][0]), where)
         # absent ⇒ inserted on every path; present ⇒ not overwritten
-        absent = [x for cb, x in q.call_exprs(b, "Option::is_none") if sig(x[2][0]).endswith("%s)" % k) or alt.get(sig(x[2][0]).split("state.pools, ")[-1][:-1], "") == k]
-        absent += [x for cb, x in q.call_exprs(b, "Option::is_some") if sig(x[2][0]).endswith("%s)" % k)]
-        if not absent:
+        # every spelling of the presence test of pools.get(k): is_none()/is_some(), match / if let / matches!
+        tbl_abs, tbl_pre = q.presence_tests(b, lambda sx: sx.endswith("%s)" % k) or alt.get(sx.split("state.pools, ")[-1][:-1], "") == k)
+        if not tbl_abs:
             r.violation("insert/%s/untested" % short, "the pool's presence is not tested before inserting (an existing pool would be reset)", where)
             continue
-        is_none = q.is_call(absent[0], "Option::is_none")
-        tbl_abs = {x: (1 if is_none else 0) for x in absent}
-        tbl_pre = {x: (0 if is_none else 1) for x in absent}
         if want[k]:
             r.check(len(t902) >= 1, "insert/%s/gated" % short, "gated by tip_902()", "ERG/SYM creation is not gated by tip_902()", where)
             for x in t902:
